@@ -1,1 +1,574 @@
-(* stub: to be written by group Csv *)
+(* Table level of C11: reading the table written for a valid transaction list
+   gives the same transactions back (up to the stated exceptions), and writing
+   them again gives the same cells outside two executable classes. *)
+From Coq Require Import List NArith ZArith Bool Arith Lia.
+From ACB Require Import Base.Outcome Model.CsvFields Model.CsvTable Proofs.CsvDigits Proofs.CsvFieldProps.
+Import ListNotations.
+Local Open Scope N_scope.
+
+(* ---------------------------------------------------------------- columns *)
+Lemma col_eqb_spec a b : reflect (a = b) (col_eqb a b).
+Proof. destruct a, b; cbn; constructor; congruence. Qed.
+Lemma col_eqb_refl a : col_eqb a a = true.
+Proof. destruct a; reflexivity. Qed.
+
+Lemma col_header_name c : col_of_name (trim (lower (col_name c))) = Some c.
+Proof. destruct c; vm_compute; reflexivity. Qed.
+
+Lemma header_cols_names hdr : header_cols (map col_name hdr) = map Some hdr.
+Proof.
+  unfold header_cols. rewrite map_map. apply map_ext. intros c. apply col_header_name.
+Qed.
+
+Definition inhdr (hdr : list col) (k : col) : bool := existsb (col_eqb k) hdr.
+Lemma inhdr_In hdr k : inhdr hdr k = true <-> In k hdr.
+Proof.
+  unfold inhdr. rewrite existsb_exists. split.
+  - intros [x [Hx E]]. destruct (col_eqb_spec k x); [subst; assumption|discriminate].
+  - intros H. exists k. split; [assumption|apply col_eqb_refl].
+Qed.
+
+Lemma export_nodup : NoDup export_cols.
+Proof. repeat (constructor; [cbn; intuition discriminate|]). constructor. Qed.
+
+Lemma header_props dflt vs :
+  let hdr := table_header dflt vs in
+  NoDup hdr /\ ~ In KLegacy hdr
+  /\ (forall k, In k export_cols -> col_optional k = false -> inhdr hdr k = true)
+  /\ (forall k, inhdr hdr k = true -> col_optional k = true -> col_in_use dflt vs k = true)
+  /\ (forall k, In k export_cols -> col_in_use dflt vs k = true -> inhdr hdr k = true).
+Proof.
+  cbv zeta. unfold table_header. repeat split.
+  - apply NoDup_filter, export_nodup.
+  - intros H. apply filter_In in H. destruct H as [H _]. cbn in H. intuition discriminate.
+  - intros k Hk Ho. apply inhdr_In, filter_In. split; [assumption|]. rewrite Ho. reflexivity.
+  - intros k Hk Ho. apply inhdr_In, filter_In in Hk. destruct Hk as [_ Hk]. rewrite Ho in Hk. exact Hk.
+  - intros k Hk Hu. apply inhdr_In, filter_In. split; [assumption|]. rewrite Hu. apply orb_true_r.
+Qed.
+
+Lemma has_col_map hdr k : has_col k (map Some hdr) = inhdr hdr k.
+Proof.
+  unfold has_col, inhdr. induction hdr as [|h r IH]; [reflexivity|]. cbn [map existsb]. rewrite IH. reflexivity.
+Qed.
+
+(* ---------------------------------------------------------------- one record *)
+Definition nonblank (s : bytes) : option bytes := let t := trim s in if is_nil t then None else Some t.
+
+Lemma lookup_app k a b :
+  lookup k (a ++ b) = match lookup k a with Some v => Some v | None => lookup k b end.
+Proof.
+  induction a as [|[k' v] a IH]; [reflexivity|]. cbn [app lookup]. destruct (col_eqb k k'); [reflexivity|exact IH].
+Qed.
+
+Lemma lookup_row_notin hdr f k :
+  ~ In k hdr -> lookup k (row_values (map Some hdr) (map f hdr)) = None.
+Proof.
+  induction hdr as [|h hr IH]; intros Hn; [reflexivity|]. cbn [map row_values].
+  assert (Hk : col_eqb k h = false) by (destruct (col_eqb_spec k h); [subst; exfalso; apply Hn; left; reflexivity|reflexivity]).
+  assert (Hr : ~ In k hr) by (intros H; apply Hn; right; exact H).
+  destruct (is_nil (trim (f h))); [apply IH; exact Hr|].
+  rewrite lookup_app, (IH Hr). cbn [lookup]. rewrite Hk. reflexivity.
+Qed.
+
+Lemma lookup_row hdr f k :
+  NoDup hdr ->
+  lookup k (row_values (map Some hdr) (map f hdr)) = if inhdr hdr k then nonblank (f k) else None.
+Proof.
+  induction hdr as [|h hr IH]; intros Hnd; [reflexivity|]. inversion Hnd as [|? ? Hnh Hnd']; subst.
+  cbn [map row_values]. unfold inhdr. cbn [existsb]. fold (inhdr hr k).
+  destruct (col_eqb_spec k h) as [->|Hne].
+  - cbn [orb]. unfold nonblank. destruct (is_nil (trim (f h))) eqn:En.
+    + apply lookup_row_notin. exact Hnh.
+    + rewrite lookup_app, (lookup_row_notin hr f h Hnh). cbn [lookup]. rewrite col_eqb_refl. reflexivity.
+  - cbn [orb]. destruct (is_nil (trim (f h))).
+    + apply IH. exact Hnd'.
+    + rewrite lookup_app, (IH Hnd'). destruct (inhdr hr k).
+      * destruct (nonblank (f k)); [reflexivity|]. cbn [lookup].
+        destruct (col_eqb_spec k h); [contradiction|reflexivity].
+      * cbn [lookup]. destruct (col_eqb_spec k h); [contradiction|reflexivity].
+Qed.
+
+Lemma nonblank_edges s : edges_ok s = true -> nonblank s = Some s.
+Proof. intros H. destruct (trim_edges s H) as [Ht Hn]. unfold nonblank. rewrite Ht, Hn. reflexivity. Qed.
+Lemma nonblank_nil : nonblank [] = None.
+Proof. reflexivity. Qed.
+
+(* ---------------------------------------------------------------- validity of a CsvTx *)
+Definition ovalid {T} (P : T -> bool) (o : option T) : Prop := forall x, o = Some x -> P x = true.
+
+Record csv_valid (tbl : aftable) (v : csvtx) : Prop := {
+  cv_sec : ovalid valid_sec (v_sec v);
+  cv_td : ovalid valid_date (v_td v);
+  cv_sd : ovalid valid_date (v_sd v);
+  cv_sh : ovalid valid_dec (v_sh v);
+  cv_aps : ovalid valid_dec (v_aps v);
+  cv_com : ovalid valid_dec (v_com v);
+  cv_cur : ovalid valid_cur (v_cur v);
+  cv_fx : ovalid valid_dec (v_fx v);
+  cv_ccur : ovalid valid_cur (v_ccur v);
+  cv_cfx : ovalid valid_dec (v_cfx v);
+  cv_af : ovalid (valid_aff tbl) (v_af v);
+  cv_sfl : ovalid valid_sfl (v_sfl v);
+  cv_ratio : ovalid valid_ratio (v_ratio v)
+}.
+
+Lemma ovalid_some {T} (P : T -> bool) x : P x = true -> ovalid P (Some x).
+Proof. intros H y E. inversion E; subst. exact H. Qed.
+Lemma ovalid_none {T} (P : T -> bool) : ovalid P None.
+Proof. intros y E. discriminate. Qed.
+
+Lemma valid_car_parts c :
+  valid_car c = true ->
+  valid_cur (c_cur c) = true /\ valid_dec (c_rate c) = true /\ dec_pos (c_rate c) = true
+  /\ (car_is_default c = true -> dec_is_one (c_rate c) = true).
+Proof.
+  unfold valid_car. rewrite !andb_true_iff, orb_true_iff, negb_true_iff. intros [[[H1 H2] H3] H4].
+  repeat split; auto. intros Hd. destruct H4 as [H4|H4]; [congruence|exact H4].
+Qed.
+
+Lemma rate_opt_valid c : valid_car c = true -> ovalid valid_dec (rate_opt c).
+Proof.
+  intros H. destruct (valid_car_parts c H) as [_ [H2 _]]. unfold rate_opt.
+  destruct (car_is_default c); [apply ovalid_none|apply ovalid_some; exact H2].
+Qed.
+
+Lemma to_csvtx_valid tbl t : valid_tx tbl t = true -> csv_valid tbl (to_csvtx t).
+Proof.
+  unfold valid_tx. rewrite !andb_true_iff. intros [[[[Hs Htd] Hsd] Ha] Haf].
+  unfold to_csvtx. destruct (x_act t) as [sh aps com cr ccr|sh aps com cr ccr sfl|aps cr|sh aps|r];
+    cbn [valid_act] in Ha; rewrite ?andb_true_iff in Ha.
+  - destruct Ha as [[[[[[[V1 P1] V2] P2] V3] P3] Vc] Vcc].
+    destruct (valid_car_parts _ Vc) as [Vcur _].
+    constructor; cbn; try (apply ovalid_some; assumption); try apply ovalid_none; try (apply rate_opt_valid; assumption).
+    + destruct ccr as [c|]; [|apply ovalid_none]. cbn in Vcc. destruct (valid_car_parts _ Vcc) as [Vcur' _].
+      apply ovalid_some; assumption.
+    + destruct ccr as [c|]; [|apply ovalid_none]. cbn in Vcc. apply rate_opt_valid; assumption.
+  - destruct Ha as [[[[[[[[V1 P1] V2] P2] V3] P3] Vc] Vcc] Vs].
+    destruct (valid_car_parts _ Vc) as [Vcur _].
+    constructor; cbn; try (apply ovalid_some; assumption); try apply ovalid_none; try (apply rate_opt_valid; assumption).
+    + destruct ccr as [c|]; [|apply ovalid_none]. cbn in Vcc. destruct (valid_car_parts _ Vcc) as [Vcur' _].
+      apply ovalid_some; assumption.
+    + destruct ccr as [c|]; [|apply ovalid_none]. cbn in Vcc. apply rate_opt_valid; assumption.
+    + destruct sfl as [v|]; [apply ovalid_some; assumption|apply ovalid_none].
+  - destruct Ha as [[V1 P1] Vc]. destruct (valid_car_parts _ Vc) as [Vcur _].
+    constructor; cbn; try (apply ovalid_some; assumption); try apply ovalid_none; try (apply rate_opt_valid; assumption).
+  - destruct Ha as [[[V1 P1] V2] P2].
+    constructor; cbn; try (apply ovalid_some; assumption); try apply ovalid_none.
+  - constructor; cbn; try (apply ovalid_some; assumption); try apply ovalid_none.
+Qed.
+
+(* ---------------------------------------------------------------- the re-read CsvTx *)
+Definition reread (hasaf : bool) (v : csvtx) (ri : N) : csvtx :=
+  {| v_sec := v_sec v; v_td := v_td v; v_sd := v_sd v; v_act := v_act v;
+     v_sh := option_map (rp_dec 0) (v_sh v); v_aps := option_map (rp_dec 2) (v_aps v);
+     v_com := option_map (rp_dec 2) (v_com v);
+     v_cur := v_cur v; v_fx := option_map (rp_dec 0) (v_fx v);
+     v_ccur := v_ccur v; v_cfx := option_map (rp_dec 0) (v_cfx v);
+     v_memo := match v_memo v with Some m => nonblank m | None => None end;
+     v_af := if hasaf then v_af v else None;
+     v_sfl := option_map rp_sfl (v_sfl v); v_ratio := option_map rp_ratio (v_ratio v); v_ri := ri |}.
+
+Lemma opt_parse_show {T} (f : bytes -> res T) (show : T -> bytes) (rp : T -> T) (o : option T) :
+  (forall x, o = Some x -> f (show x) = Ok (rp x)) ->
+  opt_parse f (option_map show o) = Ok (option_map rp o).
+Proof. intros H. destruct o as [x|]; [|reflexivity]. cbn. rewrite (H x eq_refl). reflexivity. Qed.
+
+(* lookup of a column whose cell is the rendering of an optional field *)
+Lemma lookup_field {T} hdr (v : csvtx) k (show : T -> bytes) (fld : option T) :
+  NoDup hdr ->
+  cell v k = oshow show fld ->
+  (is_some fld = true -> inhdr hdr k = true) ->
+  (forall x, fld = Some x -> edges_ok (show x) = true) ->
+  lookup k (row_values (map Some hdr) (map (cell v) hdr)) = option_map show fld.
+Proof.
+  intros Hnd Hc Hin He. rewrite lookup_row by assumption. rewrite Hc.
+  destruct fld as [x|]; cbn [oshow option_map].
+  - rewrite (Hin eq_refl). apply nonblank_edges, He. reflexivity.
+  - destruct (inhdr hdr k); reflexivity.
+Qed.
+
+Lemma valid_sec_edges s : valid_sec s = true -> nonblank s = Some s.
+Proof.
+  unfold valid_sec. rewrite andb_true_iff, negb_true_iff. intros [Hn Ht]. apply beqb_eq in Ht.
+  unfold nonblank. rewrite Ht, Hn. reflexivity.
+Qed.
+
+Lemma affdata_eqb_eq a b : affdata_eqb a b = true -> a = b.
+Proof.
+  unfold affdata_eqb. rewrite !andb_true_iff. intros [[H1 H2] H3].
+  apply beqb_eq in H1, H2. apply eqb_prop in H3. destruct a, b; cbn in *; subst; reflexivity.
+Qed.
+Lemma affdata_eqb_refl a : affdata_eqb a a = true.
+Proof. unfold affdata_eqb. rewrite !beqb_refl, eqb_reflx. reflexivity. Qed.
+
+Lemma valid_aff_intern tbl a :
+  valid_aff tbl a = true ->
+  nonblank (a_name a) = Some (a_name a) /\ intern tbl (a_name a) = (a, tbl) /\ tbl_find (a_id a) tbl = Some a.
+Proof.
+  unfold valid_aff. rewrite !andb_true_iff, negb_true_iff. intros [[[Hf Hn] Ht] Hid].
+  apply beqb_eq in Ht, Hid.
+  destruct (tbl_find (a_id a) tbl) as [b|] eqn:Ef; [|discriminate]. apply affdata_eqb_eq in Hf. subst b.
+  repeat split.
+  - unfold nonblank. rewrite Ht, Hn. reflexivity.
+  - unfold intern. rewrite Hid, Ef. reflexivity.
+Qed.
+
+(* ---------------------------------------------------------------- reading one written record *)
+Lemma row_reread tbl hdr v ri (hasaf : bool) :
+  NoDup hdr -> ~ In KLegacy hdr -> csv_valid tbl v ->
+  (forall k, In k export_cols -> col_optional k = false -> inhdr hdr k = true) ->
+  (is_some (v_fx v) = true -> inhdr hdr KFx = true) ->
+  (is_some (v_ccur v) = true -> inhdr hdr KCcur = true) ->
+  (is_some (v_cfx v) = true -> inhdr hdr KCfx = true) ->
+  (is_some (v_sfl v) = true -> inhdr hdr KSfl = true) ->
+  (is_some (v_ratio v) = true -> inhdr hdr KRatio = true) ->
+  inhdr hdr KAf = hasaf -> (hasaf = true -> is_some (v_af v) = true) ->
+  csvtx_from_values tbl (row_values (map Some hdr) (map (cell v) hdr)) ri = Ok (reread hasaf v ri, tbl).
+Proof.
+  intros Hnd Hleg CV Hreq Hfx Hccur Hcfx Hsfl Hratio Haf Hafsome.
+  set (vals := row_values (map Some hdr) (map (cell v) hdr)).
+  assert (Lsec : lookup KSec vals = v_sec v).
+  { unfold vals. rewrite lookup_row by assumption. rewrite (Hreq KSec) by (cbn; auto 20).
+    cbn [cell]. destruct (v_sec v) as [s|] eqn:E; cbn [oshow]; [|reflexivity].
+    apply valid_sec_edges. apply (cv_sec _ _ CV). exact E. }
+  assert (Ltd : lookup KTd vals = option_map show_date (v_td v)).
+  { apply lookup_field; [assumption|reflexivity|intros _; apply Hreq; cbn; auto 20|].
+    intros x E. apply date_roundtrip. apply (cv_td _ _ CV). exact E. }
+  assert (Lsd : lookup KSd vals = option_map show_date (v_sd v)).
+  { apply lookup_field; [assumption|reflexivity|intros _; apply Hreq; cbn; auto 20|].
+    intros x E. apply date_roundtrip. apply (cv_sd _ _ CV). exact E. }
+  assert (Lleg : lookup KLegacy vals = None).
+  { apply lookup_row_notin. exact Hleg. }
+  assert (Lact : lookup KAct vals = option_map show_act (v_act v)).
+  { apply lookup_field; [assumption|reflexivity|intros _; apply Hreq; cbn; auto 20|].
+    intros x _. apply act_roundtrip. }
+  assert (Lsh : lookup KSh vals = option_map (tsmp 0) (v_sh v)).
+  { apply lookup_field; [assumption|reflexivity|intros _; apply Hreq; cbn; auto 20|]. intros; apply tsmp_edges. }
+  assert (Laps : lookup KAps vals = option_map (tsmp 2) (v_aps v)).
+  { apply lookup_field; [assumption|reflexivity|intros _; apply Hreq; cbn; auto 20|]. intros; apply tsmp_edges. }
+  assert (Lcom : lookup KCom vals = option_map (tsmp 2) (v_com v)).
+  { apply lookup_field; [assumption|reflexivity|intros _; apply Hreq; cbn; auto 20|]. intros; apply tsmp_edges. }
+  assert (Lcur : lookup KCur vals = v_cur v).
+  { unfold vals. rewrite lookup_row by assumption. rewrite (Hreq KCur) by (cbn; auto 20).
+    cbn [cell]. destruct (v_cur v) as [s|] eqn:E; cbn [oshow]; [|reflexivity].
+    destruct (currency_roundtrip s (cv_cur _ _ CV s E)) as [_ [Ht Hn]].
+    unfold nonblank. rewrite Ht, Hn. reflexivity. }
+  assert (Lfx : lookup KFx vals = option_map (tsmp 0) (v_fx v)).
+  { apply lookup_field; [assumption|reflexivity|assumption|]. intros; apply tsmp_edges. }
+  assert (Lccur : lookup KCcur vals = v_ccur v).
+  { unfold vals. rewrite lookup_row by assumption.
+    cbn [cell]. destruct (v_ccur v) as [s|] eqn:E; cbn [oshow].
+    - rewrite (Hccur eq_refl). destruct (currency_roundtrip s (cv_ccur _ _ CV s E)) as [_ [Ht Hn]].
+      unfold nonblank. rewrite Ht, Hn. reflexivity.
+    - destruct (inhdr hdr KCcur); reflexivity. }
+  assert (Lcfx : lookup KCfx vals = option_map (tsmp 0) (v_cfx v)).
+  { apply lookup_field; [assumption|reflexivity|assumption|]. intros; apply tsmp_edges. }
+  assert (Lmemo : lookup KMemo vals = match v_memo v with Some m => nonblank m | None => None end).
+  { unfold vals. rewrite lookup_row by assumption. rewrite (Hreq KMemo) by (cbn; auto 20).
+    cbn [cell]. destruct (v_memo v); reflexivity. }
+  assert (Lsfl : lookup KSfl vals = option_map show_sfl (v_sfl v)).
+  { apply lookup_field; [assumption|reflexivity|assumption|].
+    intros x E. apply sfl_roundtrip. apply (cv_sfl _ _ CV). exact E. }
+  assert (Lratio : lookup KRatio vals = option_map show_ratio (v_ratio v)).
+  { apply lookup_field; [assumption|reflexivity|assumption|].
+    intros x E. apply ratio_roundtrip. apply (cv_ratio _ _ CV). exact E. }
+  assert (Laf : lookup KAf vals = if hasaf then option_map a_name (v_af v) else None).
+  { unfold vals. rewrite lookup_row by assumption. rewrite Haf. destruct hasaf; [|reflexivity].
+    cbn [cell]. destruct (v_af v) as [a|] eqn:E; cbn [oshow option_map]; [|reflexivity].
+    apply (valid_aff_intern tbl a). apply (cv_af _ _ CV). exact E. }
+  unfold csvtx_from_values. fold vals.
+  rewrite Lsec, Ltd, Lsd, Lleg, Lact, Lsh, Laps, Lcom, Lcur, Lfx, Lccur, Lcfx, Lmemo, Lsfl, Lratio, Laf.
+  rewrite (opt_parse_show parse_date show_date (fun x => x) (v_td v))
+    by (intros x E; apply date_roundtrip; apply (cv_td _ _ CV); exact E).
+  cbn [bind].
+  rewrite (opt_parse_show parse_date show_date (fun x => x) (v_sd v))
+    by (intros x E; apply date_roundtrip; apply (cv_sd _ _ CV); exact E).
+  cbn [bind opt_parse].
+  rewrite (opt_parse_show parse_act show_act (fun x => x) (v_act v)) by (intros x _; apply act_roundtrip).
+  cbn [bind].
+  rewrite (opt_parse_show parse_dec (tsmp 0) (rp_dec 0) (v_sh v))
+    by (intros x E; apply rp_dec_spec; [apply (cv_sh _ _ CV); exact E|lia]).
+  cbn [bind].
+  rewrite (opt_parse_show parse_dec (tsmp 2) (rp_dec 2) (v_aps v))
+    by (intros x E; apply rp_dec_spec; [apply (cv_aps _ _ CV); exact E|lia]).
+  cbn [bind].
+  rewrite (opt_parse_show parse_dec (tsmp 2) (rp_dec 2) (v_com v))
+    by (intros x E; apply rp_dec_spec; [apply (cv_com _ _ CV); exact E|lia]).
+  cbn [bind].
+  rewrite (opt_parse_show parse_dec (tsmp 0) (rp_dec 0) (v_fx v))
+    by (intros x E; apply rp_dec_spec; [apply (cv_fx _ _ CV); exact E|lia]).
+  cbn [bind].
+  rewrite (opt_parse_show parse_dec (tsmp 0) (rp_dec 0) (v_cfx v))
+    by (intros x E; apply rp_dec_spec; [apply (cv_cfx _ _ CV); exact E|lia]).
+  cbn [bind].
+  assert (Ecur : forall o, ovalid valid_cur o -> option_map currency_new o = o).
+  { intros o Ho. destruct o as [s|]; [|reflexivity]. cbn. f_equal. apply currency_roundtrip. apply Ho. reflexivity. }
+  rewrite (Ecur _ (cv_cur _ _ CV)), (Ecur _ (cv_ccur _ _ CV)).
+  assert (Eaf : (match (if hasaf then option_map a_name (v_af v) else None) with
+                 | Some s => if is_nil (trim s) then (None, tbl)
+                             else let '(a, t1) := intern tbl s in (Some a, t1)
+                 | None => (None, tbl)
+                 end) = (if hasaf then v_af v else None, tbl)).
+  { destruct hasaf; [|reflexivity]. destruct (v_af v) as [a|] eqn:E; [|reflexivity]. cbn [option_map].
+    destruct (valid_aff_intern tbl a (cv_af _ _ CV a E)) as [Hnb [Hi _]].
+    unfold nonblank in Hnb. destruct (is_nil (trim (a_name a))); [discriminate|]. rewrite Hi. reflexivity. }
+  rewrite Eaf.
+  rewrite (opt_parse_show parse_sfl show_sfl rp_sfl (v_sfl v))
+    by (intros x E; apply sfl_roundtrip; apply (cv_sfl _ _ CV); exact E).
+  cbn [bind].
+  rewrite (opt_parse_show parse_ratio show_ratio rp_ratio (v_ratio v))
+    by (intros x E; apply ratio_roundtrip; apply (cv_ratio _ _ CV); exact E).
+  cbn [bind]. unfold reread.
+  assert (Eid : forall {T} (o : option T), option_map (fun x => x) o = o) by (intros T o; destruct o; reflexivity).
+  rewrite !Eid. destruct (v_sd v); reflexivity.
+Qed.
+
+(* ---------------------------------------------------------------- Tx::try_from on the re-read record *)
+Definition rp_car (c : car) : car :=
+  if car_is_default c then car_default else {| c_cur := c_cur c; c_rate := rp_dec 0 (c_rate c) |}.
+Definition rp_act (a : cact) : cact :=
+  match a with
+  | XBuy sh aps com cr ccr => XBuy (rp_dec 0 sh) (rp_dec 2 aps) (rp_dec 2 com) (rp_car cr) (option_map rp_car ccr)
+  | XSell sh aps com cr ccr sfl =>
+      XSell (rp_dec 0 sh) (rp_dec 2 aps) (rp_dec 2 com) (rp_car cr) (option_map rp_car ccr) (option_map rp_sfl sfl)
+  | XRoc aps cr => XRoc (rp_dec 2 aps) (rp_car cr)
+  | XSfla sh aps => XSfla (rp_dec 0 sh) (rp_dec 2 aps)
+  | XSplit r => XSplit (rp_ratio r)
+  end.
+Definition retx (t : ctx) (af : affdata) (ri : N) : ctx :=
+  {| x_sec := x_sec t; x_td := x_td t; x_sd := x_sd t; x_act := rp_act (x_act t);
+     x_memo := trim (x_memo t); x_af := af; x_ri := ri |}.
+
+Lemma rp_dec_same k d : valid_dec d = true -> (k <= 28)%nat -> dec_same d (rp_dec k d).
+Proof. intros Hv Hk. apply rp_dec_spec; assumption. Qed.
+
+Lemma ver_car c :
+  valid_car c = true ->
+  valid_exchange_rate (Some (c_cur c)) (option_map (rp_dec 0) (rate_opt c)) = Ok (Some (rp_car c)).
+Proof.
+  intros Hv. destruct (valid_car_parts c Hv) as [_ [Vr [Pr _]]].
+  unfold rate_opt, rp_car, car_is_default, valid_exchange_rate.
+  destruct (cur_is_default (c_cur c)) eqn:E; cbn [option_map is_some negb andb]; [reflexivity|].
+  rewrite <- (dec_same_pos _ _ (rp_dec_same 0 _ Vr ltac:(lia))), Pr. reflexivity.
+Qed.
+Lemma ver_ocar o :
+  valid_ocar o = true ->
+  valid_exchange_rate (option_map c_cur o)
+    (option_map (rp_dec 0) (match o with Some c => rate_opt c | None => None end))
+  = Ok (option_map rp_car o).
+Proof. destruct o as [c|]; [apply ver_car|reflexivity]. Qed.
+
+Lemma memo_reread m : match nonblank m with Some m' => m' | None => [] end = trim m.
+Proof. unfold nonblank. destruct (trim m); reflexivity. Qed.
+
+Lemma default_id_data : a_id (from_strep_data []) = s_default_id.
+Proof. reflexivity. Qed.
+
+Lemma af_default_hit tbl a :
+  valid_aff tbl a = true -> aff_is_default a = true -> af_default tbl = (a, tbl).
+Proof.
+  intros Hv Hd. destruct (valid_aff_intern tbl a Hv) as [_ [_ Hf]].
+  unfold aff_is_default in Hd. apply beqb_eq in Hd.
+  unfold af_default, intern. rewrite default_id_data, <- Hd, Hf. reflexivity.
+Qed.
+
+Lemma try_from_reread tbl t (hasaf : bool) ri :
+  valid_tx tbl t = true -> (hasaf = false -> aff_is_default (x_af t) = true) ->
+  tx_try_from tbl (reread hasaf (to_csvtx t) ri)
+  = if hasaf then Ok (retx t (x_af t) ri, tbl)
+    else if is_xsplit (x_act t) then (let '(g, tbl') := af_global tbl in Ok (retx t g ri, tbl'))
+    else Ok (retx t (x_af t) ri, tbl).
+Proof.
+  intros Hv Hdef. pose proof Hv as Hv0.
+  unfold valid_tx in Hv. rewrite !andb_true_iff in Hv. destruct Hv as [[[[Hs Htd] Hsd] Ha] Haf].
+  assert (Hsec : is_nil (x_sec t) = false).
+  { unfold valid_sec in Hs. apply andb_prop in Hs. destruct Hs as [Hs _]. apply negb_true_iff in Hs. exact Hs. }
+  assert (Hafd : hasaf = false -> af_default tbl = (x_af t, tbl)).
+  { intros E. apply af_default_hit; [exact Haf|apply Hdef; exact E]. }
+  unfold tx_try_from, reread, to_csvtx, retx.
+  destruct (x_act t) as [sh aps com cr ccr|sh aps com cr ccr sfl|aps cr|sh aps|r];
+    cbn [valid_act] in Ha; rewrite ?andb_true_iff in Ha;
+    cbn [v_act v_sh v_aps v_com v_cur v_fx v_ccur v_cfx v_memo v_af v_sfl v_ratio v_sec v_td v_sd v_ri
+         option_map rp_act is_xsplit].
+  - destruct Ha as [[[[[[[V1 P1] V2] P2] V3] P3] Vc] Vcc].
+    unfold common_attrs, req.
+    cbn [v_act v_sh v_aps v_com v_cur v_fx v_ccur v_cfx v_memo v_af v_sfl v_ratio v_sec v_td v_sd v_ri bind].
+    rewrite (ver_car _ Vc), (ver_ocar _ Vcc). cbn [bind or_default].
+    rewrite <- (dec_same_pos _ _ (rp_dec_same 0 _ V1 ltac:(lia))), P1.
+    rewrite <- (dec_same_gez _ _ (rp_dec_same 2 _ V2 ltac:(lia))), P2.
+    rewrite <- (dec_same_gez _ _ (rp_dec_same 2 _ V3 ltac:(lia))), P3.
+    cbn [negb bind]. rewrite memo_reread, Hsec.
+    destruct hasaf; [reflexivity|]. rewrite (Hafd eq_refl). reflexivity.
+  - destruct Ha as [[[[[[[[V1 P1] V2] P2] V3] P3] Vc] Vcc] Vs].
+    unfold common_attrs, req.
+    cbn [v_act v_sh v_aps v_com v_cur v_fx v_ccur v_cfx v_memo v_af v_sfl v_ratio v_sec v_td v_sd v_ri bind].
+    rewrite (ver_car _ Vc), (ver_ocar _ Vcc). cbn [bind or_default].
+    rewrite <- (dec_same_pos _ _ (rp_dec_same 0 _ V1 ltac:(lia))), P1.
+    rewrite <- (dec_same_gez _ _ (rp_dec_same 2 _ V2 ltac:(lia))), P2.
+    rewrite <- (dec_same_gez _ _ (rp_dec_same 2 _ V3 ltac:(lia))), P3.
+    cbn [negb bind]. rewrite memo_reread, Hsec.
+    destruct hasaf; [reflexivity|]. rewrite (Hafd eq_refl). reflexivity.
+  - destruct Ha as [[V1 P1] Vc]. unfold req.
+    cbn [v_act v_sh v_aps v_com v_cur v_fx v_ccur v_cfx v_memo v_af v_sfl v_ratio v_sec v_td v_sd v_ri bind is_some].
+    rewrite <- (dec_same_gez _ _ (rp_dec_same 2 _ V1 ltac:(lia))), P1. cbn [negb].
+    rewrite (ver_car _ Vc). cbn [bind or_default]. rewrite memo_reread, Hsec.
+    destruct hasaf; [reflexivity|]. rewrite (Hafd eq_refl). reflexivity.
+  - destruct Ha as [[[V1 P1] V2] P2]. unfold req.
+    cbn [v_act v_sh v_aps v_com v_cur v_fx v_ccur v_cfx v_memo v_af v_sfl v_ratio v_sec v_td v_sd v_ri bind is_some
+         valid_exchange_rate].
+    rewrite <- (dec_same_pos _ _ (rp_dec_same 0 _ V1 ltac:(lia))), P1.
+    rewrite <- (dec_same_pos _ _ (rp_dec_same 2 _ V2 ltac:(lia))), P2.
+    cbn [negb bind]. rewrite memo_reread, Hsec.
+    destruct hasaf; [reflexivity|]. rewrite (Hafd eq_refl). reflexivity.
+  - unfold req.
+    cbn [v_act v_sh v_aps v_com v_cur v_fx v_ccur v_cfx v_memo v_af v_sfl v_ratio v_sec v_td v_sd v_ri bind].
+    rewrite memo_reread, Hsec.
+    destruct hasaf; [reflexivity|]. destruct (af_global tbl) as [g tbl']. reflexivity.
+Qed.
+
+(* ---------------------------------------------------------------- all records *)
+Fixpoint reread_all (hasaf : bool) (vs : list csvtx) (ri : N) : list csvtx :=
+  match vs with
+  | [] => []
+  | v :: r => reread hasaf v ri :: reread_all hasaf r (ri + 1)
+  end.
+
+Definition row_ok (tbl : aftable) (hdr : list col) (hasaf : bool) (v : csvtx) : Prop :=
+  csv_valid tbl v
+  /\ (is_some (v_fx v) = true -> inhdr hdr KFx = true)
+  /\ (is_some (v_ccur v) = true -> inhdr hdr KCcur = true)
+  /\ (is_some (v_cfx v) = true -> inhdr hdr KCfx = true)
+  /\ (is_some (v_sfl v) = true -> inhdr hdr KSfl = true)
+  /\ (is_some (v_ratio v) = true -> inhdr hdr KRatio = true)
+  /\ (hasaf = true -> is_some (v_af v) = true).
+
+Lemma parse_rows_written tbl hdr (hasaf : bool) vs : forall ri,
+  NoDup hdr -> ~ In KLegacy hdr ->
+  (forall k, In k export_cols -> col_optional k = false -> inhdr hdr k = true) ->
+  inhdr hdr KAf = hasaf ->
+  Forall (row_ok tbl hdr hasaf) vs ->
+  parse_rows tbl (map Some hdr) (map (fun v => map (cell v) hdr) vs) ri = Ok (reread_all hasaf vs ri, tbl).
+Proof.
+  induction vs as [|v vs IH]; intros ri Hnd Hleg Hreq Haf HF; [reflexivity|].
+  pose proof (Forall_inv HF) as Hv. pose proof (Forall_inv_tail HF) as HF'.
+  destruct Hv as [CV [H1 [H2 [H3 [H4 [H5 H6]]]]]].
+  cbn [map parse_rows reread_all]. rewrite !map_length, Nat.eqb_refl. cbn [negb].
+  rewrite (row_reread tbl hdr v ri hasaf) by assumption. cbn [bind].
+  rewrite IH by assumption. reflexivity.
+Qed.
+
+(* ---------------------------------------------------------------- the affiliate table only grows *)
+Lemma tbl_find_id id t a : tbl_find id t = Some a -> a_id a = id.
+Proof.
+  induction t as [|b r IH]; cbn; [discriminate|]. destruct (beqb (a_id b) id) eqn:E.
+  - intros H. inversion H; subst. apply beqb_eq. exact E.
+  - exact IH.
+Qed.
+Lemma tbl_find_app id t d a : tbl_find id t = Some a -> tbl_find id (t ++ [d]) = Some a.
+Proof.
+  induction t as [|b r IH]; cbn; [discriminate|]. destruct (beqb (a_id b) id); [auto|exact IH].
+Qed.
+Lemma intern_grows tbl s a tbl' :
+  intern tbl s = (a, tbl') -> forall id b, tbl_find id tbl = Some b -> tbl_find id tbl' = Some b.
+Proof.
+  unfold intern. destruct (tbl_find (a_id (from_strep_data s)) tbl).
+  - intros H. inversion H; subst. auto.
+  - intros H. inversion H; subst. intros id b. apply tbl_find_app.
+Qed.
+Lemma valid_aff_grows tbl tbl' a :
+  (forall id b, tbl_find id tbl = Some b -> tbl_find id tbl' = Some b) ->
+  valid_aff tbl a = true -> valid_aff tbl' a = true.
+Proof.
+  intros Hg. unfold valid_aff. rewrite !andb_true_iff. intros [[[Hf Hn] Ht] Hid].
+  repeat split; auto. destruct (tbl_find (a_id a) tbl) as [b|] eqn:E; [|discriminate].
+  rewrite (Hg _ _ E). exact Hf.
+Qed.
+Lemma valid_tx_grows tbl tbl' t :
+  (forall id b, tbl_find id tbl = Some b -> tbl_find id tbl' = Some b) ->
+  valid_tx tbl t = true -> valid_tx tbl' t = true.
+Proof.
+  intros Hg. unfold valid_tx. rewrite !andb_true_iff. intros [[[[H1 H2] H3] H4] H5].
+  repeat split; auto. apply (valid_aff_grows tbl tbl'); assumption.
+Qed.
+
+Lemma global_is_global tbl : aff_is_global (fst (af_global tbl)) = true.
+Proof.
+  unfold af_global, intern. destruct (tbl_find (a_id (from_strep_data s_global)) tbl) as [b|] eqn:E.
+  - cbn [fst]. unfold aff_is_global. rewrite (tbl_find_id _ _ _ E). reflexivity.
+  - reflexivity.
+Qed.
+
+(* ---------------------------------------------------------------- Tx::try_from on all records *)
+Fixpoint toc_all (txs : list ctx) : list csvtx := map to_csvtx txs.
+
+(* what each transaction comes back as *)
+Definition back (hasaf : bool) (t t' : ctx) (ri : N) : Prop :=
+  exists af, t' = retx t af ri
+             /\ (af = x_af t \/ (hasaf = false /\ is_xsplit (x_act t) = true /\ aff_is_global af = true)).
+
+Fixpoint backs (hasaf : bool) (txs txs' : list ctx) (ri : N) : Prop :=
+  match txs, txs' with
+  | [], [] => True
+  | t :: r, t' :: r' => back hasaf t t' ri /\ backs hasaf r r' (ri + 1)
+  | _, _ => False
+  end.
+
+Lemma try_from_all (hasaf : bool) txs : forall tbl ri,
+  Forall (fun t => valid_tx tbl t = true) txs ->
+  (hasaf = false -> Forall (fun t => aff_is_default (x_af t) = true) txs) ->
+  exists txs' tbl',
+    txs_try_from tbl (reread_all hasaf (map to_csvtx txs) ri) = Ok (txs', tbl')
+    /\ backs hasaf txs txs' ri.
+Proof.
+  induction txs as [|t txs IH]; intros tbl ri HV HD.
+  - exists [], tbl. split; [reflexivity|exact I].
+  - inversion HV as [|? ? Hv HV']; subst.
+    assert (Hd : hasaf = false -> aff_is_default (x_af t) = true).
+    { intros E. specialize (HD E). inversion HD; assumption. }
+    assert (HD' : hasaf = false -> Forall (fun t => aff_is_default (x_af t) = true) txs).
+    { intros E. specialize (HD E). inversion HD; assumption. }
+    cbn [map reread_all txs_try_from]. rewrite (try_from_reread tbl t hasaf ri Hv Hd).
+    destruct hasaf.
+    + cbn [bind]. destruct (IH tbl (ri + 1) HV' HD') as [txs' [tbl' [E B]]]. rewrite E. cbn [bind].
+      exists (retx t (x_af t) ri :: txs'), tbl'. split; [reflexivity|]. split; [|exact B].
+      exists (x_af t). auto.
+    + destruct (is_xsplit (x_act t)) eqn:Es.
+      * destruct (af_global tbl) as [g tbl1] eqn:Eg. cbn [bind].
+        assert (Hg : forall id b, tbl_find id tbl = Some b -> tbl_find id tbl1 = Some b)
+          by (apply (intern_grows tbl s_global g tbl1); exact Eg).
+        assert (HV1 : Forall (fun t => valid_tx tbl1 t = true) txs).
+        { apply Forall_forall. intros x Hx. apply (valid_tx_grows tbl tbl1); [exact Hg|].
+          apply (proj1 (Forall_forall _ _) HV'). exact Hx. }
+        destruct (IH tbl1 (ri + 1) HV1 HD') as [txs' [tbl' [E B]]]. rewrite E. cbn [bind].
+        exists (retx t g ri :: txs'), tbl'. split; [reflexivity|]. split; [|exact B].
+        exists g. split; [reflexivity|]. right. repeat split; auto.
+        pose proof (global_is_global tbl) as G. rewrite Eg in G. exact G.
+      * cbn [bind]. destruct (IH tbl (ri + 1) HV' HD') as [txs' [tbl' [E B]]]. rewrite E. cbn [bind].
+        exists (retx t (x_af t) ri :: txs'), tbl'. split; [reflexivity|]. split; [|exact B].
+        exists (x_af t). auto.
+Qed.
+
+Fixpoint retx_all (txs : list ctx) (ri : N) : list ctx :=
+  match txs with
+  | [] => []
+  | t :: r => retx t (x_af t) ri :: retx_all r (ri + 1)
+  end.
+
+(* when no global affiliate is introduced the result is explicit and the table unchanged *)
+Lemma try_from_all_plain (hasaf : bool) txs : forall tbl ri,
+  Forall (fun t => valid_tx tbl t = true) txs ->
+  (hasaf = false -> Forall (fun t => aff_is_default (x_af t) = true /\ is_xsplit (x_act t) = false) txs) ->
+  txs_try_from tbl (reread_all hasaf (map to_csvtx txs) ri) = Ok (retx_all txs ri, tbl).
+Proof.
+  induction txs as [|t txs IH]; intros tbl ri HV HD; [reflexivity|].
+  inversion HV as [|? ? Hv HV']; subst.
+  assert (Hd : hasaf = false -> aff_is_default (x_af t) = true /\ is_xsplit (x_act t) = false).
+  { intros E. specialize (HD E). inversion HD; assumption. }
+  assert (HD' : hasaf = false -> Forall (fun t => aff_is_default (x_af t) = true /\ is_xsplit (x_act t) = false) txs).
+  { intros E. specialize (HD E). inversion HD; assumption. }
+  cbn [map reread_all txs_try_from retx_all].
+  rewrite (try_from_reread tbl t hasaf ri Hv (fun E => proj1 (Hd E))).
+  destruct hasaf.
+  - cbn [bind]. rewrite (IH tbl (ri + 1) HV' HD'). reflexivity.
+  - rewrite (proj2 (Hd eq_refl)). cbn [bind]. rewrite (IH tbl (ri + 1) HV' HD'). reflexivity.
+Qed.
